@@ -95,3 +95,37 @@ func VerifH12c() {
 	nd.Assert(nd.EqBytes(got, all), "H12c.content-is-concatenation-of-writes")
 	nd.Reach("H12c.end")
 }
+
+// h12InlineSizes: 0, 1 and the copy buffer of the storing side (32 KiB) +-1.
+var h12InlineSizes = []int{0, 1, 32767, 32768, 32769}
+
+// VerifH12d: Create through the inline client with writes around the size of the storing side's
+// copy buffer (io.Copy: 32 KiB): 0..2 writes, the storing goroutine scheduled at blocking points
+// and with up to one (thorough: two) preemptions; Close returns nil and Get yields exactly the concatenation.
+func VerifH12d() {
+	P := 1
+	if nd.Tier() == 1 {
+		P = 2
+	}
+	nd.Bound("H12d.preemption_bound", P)
+	concreteCounter = true
+	w := newWorld(stdConfig(), []string{"a"})
+	nd.SetPreemptionBound(P)
+	f, err := w.d.Create(ctx, "a")
+	nd.Assert(err == nil, "H12d.create")
+	m := nd.Choice("writes", 3)
+	var all []byte
+	for i := 0; i < m; i++ {
+		p := nd.Bytes("w", h12InlineSizes[nd.Choice("size", len(h12InlineSizes))])
+		all = append(all, p...)
+		n, werr := f.Write(p)
+		nd.Assert(werr == nil && n == len(p), "H12d.write-ok")
+	}
+	nd.Assert(f.Close() == nil, "H12d.close-ok")
+	nd.SetPreemptionBound(0)
+	got, gerr := w.d.Get(ctx, "a")
+	nd.Assert(gerr == nil, "H12d.get-ok")
+	nd.Assert(len(got) == len(all), "H12d.length-is-sum-of-writes")
+	nd.Assert(nd.EqBytes(got, all), "H12d.content-is-concatenation-of-writes")
+	nd.Reach("H12d.end")
+}
